@@ -261,13 +261,15 @@ def applyTopo (cfg : Cfg) (s : RState) (payload : Bytes) : R RState := do
         else pure { s with edges := s.edges ++ pairUp vs,
                            stor := growStor (growStor s.stor propertyEntityEdge h.count) propertyEntityHalfEdge (2 * h.count) }
     else
-      let vals := if h.valence = 0 then valences else List.replicate h.count h.valence
+      -- computed only after `validSpan` bounded `h.count` (a `let` here would be evaluated eagerly by the
+      -- compiled judge for counts up to 2^32)
+      let vals := fun (_ : Unit) => if h.valence = 0 then valences else List.replicate h.count h.valence
       if h.entity = topoEntityFace then
         if !validSpan s.nF s.faces.length h.first h.count then invalid
         else if s.topo = topoTypeTetrahedral ∧ h.valence ≠ 3 then invalid   -- ErrorInvalidTopoType
         else if s.topo = topoTypeHexahedral ∧ h.valence ≠ 4 then invalid
         else
-          let (fs, rest) ← runDec (readFaceLists w h.off (2 * s.edges.length) vals) p2
+          let (fs, rest) ← runDec (readFaceLists w h.off (2 * s.edges.length) (vals ())) p2
           if !(← addFaces cfg s.edges fs) then invalid
           else if !rest.isEmpty then invalid
           else pure { s with faces := s.faces ++ fs,
@@ -277,7 +279,7 @@ def applyTopo (cfg : Cfg) (s : RState) (payload : Bytes) : R RState := do
         else if s.topo = topoTypeTetrahedral ∧ h.valence ≠ 4 then invalid
         else if s.topo = topoTypeHexahedral ∧ h.valence ≠ 6 then invalid
         else
-          let (cs, rest) ← runDec (readFaceLists w h.off (2 * s.faces.length) vals) p2
+          let (cs, rest) ← runDec (readFaceLists w h.off (2 * s.faces.length) (vals ())) p2
           match ← addCells cfg s.faces cs with
           | none => invalid
           | some cs' =>
